@@ -24,11 +24,16 @@ import (
 	"github.com/renbou/grpcbridge/bridgedesc"
 	"github.com/renbou/grpcbridge/bridgelog"
 	"github.com/renbou/grpcbridge/grpcadapter"
+	"github.com/renbou/grpcbridge/reflection"
 	"github.com/renbou/grpcbridge/routing"
 	"github.com/renbou/grpcbridge/webbridge"
 	"google.golang.org/grpc"
 	"google.golang.org/grpc/credentials/insecure"
 	"google.golang.org/grpc/metadata"
+	grpcreflect "google.golang.org/grpc/reflection"
+	reflectionv1 "google.golang.org/grpc/reflection/grpc_reflection_v1"
+	reflectionalpha "google.golang.org/grpc/reflection/grpc_reflection_v1alpha"
+	"google.golang.org/grpc/status"
 	"google.golang.org/grpc/test/bufconn"
 	"google.golang.org/protobuf/proto"
 	"google.golang.org/protobuf/reflect/protoregistry"
@@ -44,6 +49,9 @@ func (Area) Gen(r *rand.Rand, tier string, emit func(string)) {
 	emit("race straggler-http")
 	emit("race wsburst 0")
 	emit("race wsburst 1")
+	emit("race deadline 0")
+	emit("race deadline 1")
+	emit("race resolvers")
 	n := 2
 	if tier == "thorough" {
 		n = 12
@@ -134,6 +142,10 @@ func (Area) Exec(input string) string {
 		stragglerHTTP()
 	case "wsburst":
 		wsBurst(f[2] == "1")
+	case "deadline":
+		grpcWebDeadline(f[2] == "1")
+	case "resolvers":
+		resolvers()
 	case "mixed":
 		var seed int64
 		var n int
@@ -283,6 +295,138 @@ func wsBurst(grpcws bool) {
 	}
 	time.Sleep(100 * time.Millisecond)
 }
+
+// ---------- deadline while the target is silent: handler finishing vs the response pump ----------
+
+// silentConn's streams never answer: Recv blocks until its context ends.
+type silentConn struct{}
+
+func (silentConn) Close() {}
+func (silentConn) Stream(ctx context.Context, method string) (grpcadapter.ClientStream, error) {
+	return silentStream{}, nil
+}
+
+type silentStream struct{}
+
+func (silentStream) Send(context.Context, proto.Message) error { return nil }
+func (silentStream) Recv(ctx context.Context, m proto.Message) error {
+	<-ctx.Done()
+	return status.FromContextError(ctx.Err()).Err()
+}
+func (silentStream) Header() metadata.MD  { return metadata.MD{"x-h": []string{"1"}} }
+func (silentStream) Trailer() metadata.MD { return metadata.MD{"x-t": []string{"1"}} }
+func (silentStream) CloseSend()           {}
+func (silentStream) Close()               {}
+
+type silentRouter struct{ t *bridgedesc.Target }
+
+func (r silentRouter) RouteGRPC(context.Context) (grpcadapter.ClientConn, routing.GRPCRoute, error) {
+	return silentConn{}, routing.GRPCRoute{Target: r.t, Service: &r.t.Services[0], Method: bridgedesc.DummyMethod("t.S", "B")}, nil
+}
+
+// grpcWebDeadline: gRPC-Web calls (HTTP or WebSocket) with a 50 ms grpc-timeout against a target that never
+// answers; the trailer metadata set by the response pump is read by the handler right after Forward returns.
+func grpcWebDeadline(ws bool) {
+	rt := silentRouter{unaryTarget("t")}
+	fwd := grpcadapter.NewProxyForwarder(grpcadapter.ProxyForwarderOpts{Filter: grpcadapter.NewProxyMDFilter(grpcadapter.ProxyMDFilterOpts{
+		AllowResponseMD: []string{"x-h"}, AllowTrailerMD: []string{"x-t"}})})
+	var h http.Handler
+	if ws {
+		h = webbridge.NewGRPCWebSocketBridge(rt, webbridge.GRPCWebBridgeOpts{Logger: bridgelog.Discard(), Forwarder: fwd})
+	} else {
+		h = webbridge.NewGRPCWebBridge(rt, webbridge.GRPCWebBridgeOpts{Forwarder: fwd})
+	}
+	srv := httptest.NewServer(h)
+	defer srv.Close()
+	for i := 0; i < 6; i++ {
+		if ws {
+			d := websocket.Dialer{Subprotocols: []string{"grpc-websockets"}}
+			c, _, err := d.Dial("ws"+strings.TrimPrefix(srv.URL, "http")+"/t.S/B", nil)
+			if err != nil {
+				return
+			}
+			_ = c.WriteMessage(websocket.BinaryMessage, []byte("grpc-timeout: 50m\r\n"))
+			_ = c.WriteMessage(websocket.BinaryMessage, []byte{0, 0, 0, 0, 0, 0})
+			_ = c.SetReadDeadline(time.Now().Add(2 * time.Second))
+			for {
+				if _, _, err := c.ReadMessage(); err != nil {
+					break
+				}
+			}
+			c.Close()
+		} else {
+			req, _ := http.NewRequest("POST", srv.URL+"/t.S/B", strings.NewReader("\x00\x00\x00\x00\x00"))
+			req.Header.Set("Content-Type", "application/grpc-web+proto")
+			req.Header.Set("Grpc-Timeout", "50m")
+			cl := &http.Client{Timeout: 3 * time.Second}
+			if resp, err := cl.Do(req); err == nil {
+				_, _ = io.ReadAll(resp.Body)
+				resp.Body.Close()
+			}
+		}
+	}
+	time.Sleep(100 * time.Millisecond)
+}
+
+// ---------- two resolvers polling concurrently, one target serving only the non-preferred reflection version ----------
+
+func resolvers() {
+	mk := func(alpha bool) (*bufconn.Listener, *grpc.Server) {
+		lis := bufconn.Listen(1 << 16)
+		srv := grpc.NewServer()
+		if alpha {
+			reflectionalpha.RegisterServerReflectionServer(srv, grpcreflect.NewServer(grpcreflect.ServerOptions{Services: srv}))
+		} else {
+			reflectionv1.RegisterServerReflectionServer(srv, grpcreflect.NewServerV1(grpcreflect.ServerOptions{Services: srv}))
+		}
+		go func() { _ = srv.Serve(lis) }()
+		return lis, srv
+	}
+	la, sa := mk(true)
+	lb, sb := mk(false)
+	defer sa.Stop()
+	defer sb.Stop()
+	liss := map[string]*bufconn.Listener{"a": la, "b": lb}
+	pool := grpcadapter.NewAdaptedClientPool(grpcadapter.AdaptedClientPoolOpts{NewClientFunc: func(target string, opts ...grpc.DialOption) (*grpc.ClientConn, error) {
+		lis := liss[target]
+		return grpc.NewClient("passthrough:///"+target, append(opts,
+			grpc.WithContextDialer(func(ctx context.Context, _ string) (net.Conn, error) { return lis.DialContext(ctx) }),
+			grpc.WithTransportCredentials(insecure.NewCredentials()))...)
+	}})
+	ca, err := pool.New("a", "a")
+	if err != nil {
+		return
+	}
+	defer ca.Close()
+	cb, err := pool.New("b", "b")
+	if err != nil {
+		return
+	}
+	defer cb.Close()
+	rb := reflection.NewResolverBuilder(pool, reflection.ResolverOpts{PollManually: true, ReqTimeout: 2 * time.Second})
+	ra := rb.Build("a", nopWatcher{})
+	rbb := rb.Build("b", nopWatcher{})
+	var wg sync.WaitGroup
+	for _, r := range []*reflection.Resolver{ra, rbb} {
+		wg.Add(1)
+		go func(r *reflection.Resolver) {
+			defer wg.Done()
+			for i := 0; i < 40; i++ {
+				r.ResolveNow()
+				time.Sleep(5 * time.Millisecond)
+			}
+		}(r)
+	}
+	wg.Wait()
+	time.Sleep(100 * time.Millisecond)
+	ra.Close()
+	rbb.Close()
+}
+
+type nopWatcher struct{}
+
+func (nopWatcher) UpdateDesc(*bridgedesc.Target) {}
+func (nopWatcher) ReportError(error)             {}
 
 // ---------- fakes ----------
 
